@@ -43,7 +43,7 @@ def dhtStep (_ : Unit) (ops : List String) (_impl : String) : Unit × String :=
     let fuel := 100000
     let res : String := match op with
       | "findnode" =>
-        match findNode fuel init key (fun _ => true) ask with
+        match findNode fuel init key (fun n => (n.id.getLast?.getD 0) % 4 != 3) ask with
         | none => "no-termination"
         | some st =>
           s!"asks={showIds st.asked.reverse} closest={showId (st.closest.map (·.id))} info={toHex ((st.closest.map (·.info)).getD [])} contacted={st.contacted} err={b01 ((st.closest.map (·.id)).getD zeroID != key)}"
